@@ -203,7 +203,9 @@ def c01_defects(q):
     return out
 
 
-BASKET = ('iota', 'max_elongation', 'B20_variation', 'r_singularity', 'grad_grad_B_inverse_scale_length', 'DMerc_times_r2', 'min_L_grad_B')
+# scalars that converge spectrally (solved quantities, arclength integrals, extrema of the trigonometric interpolant); extrema over
+# grid points (B20_variation, r_singularity, grad_grad_B_inverse_scale_length) converge only at second order and are not used here
+BASKET = ('iota', 'max_elongation', 'mean_elongation', 'min_L_grad_B', 'B20_mean', 'B20_residual', 'd2_volume_d_psi2', 'DMerc_times_r2', 'G2')
 
 
 def basket(q):
@@ -605,6 +607,14 @@ def oracle_C10(objs, st=None):
         st.check('L_grad_grad_B = sqrt(4 B0/|grad grad B|)', reldiff(q.L_grad_grad_B, np.sqrt(4 * q.B0 / nrm)), 1e-12, cid)
         st.check('inverse scale length profile', reldiff(q.grad_grad_B_inverse_scale_length_vs_varphi, np.sqrt(nrm / (4 * q.B0))), 1e-12, cid)
         st.check('reported extremum is the grid maximum', abs(q.grad_grad_B_inverse_scale_length - np.max(q.grad_grad_B_inverse_scale_length_vs_varphi)), 0.0, cid)
+        # the same field described from the origin just after its sharpest point (the maximum lands on the LAST grid index)
+        jmax = int(np.argmax(q.grad_grad_B_inverse_scale_length_vs_varphi))
+        try:
+            qs = build(shifted_kwargs(c['kwargs'], q, (jmax + 1) % q.nphi))
+            st.check('reported extremum is the grid maximum', abs(qs.grad_grad_B_inverse_scale_length - np.max(qs.grad_grad_B_inverse_scale_length_vs_varphi)), 0.0, dict(cid, origin_shift=(jmax + 1) % q.nphi))
+            st.check('reported extremum independent of where the toroidal origin is placed', abs(qs.grad_grad_B_inverse_scale_length - q.grad_grad_B_inverse_scale_length) / q.grad_grad_B_inverse_scale_length, 1e-6, dict(cid, origin_shift=(jmax + 1) % q.nphi))
+        except Exception:
+            pass
         # basis clause: the API variants should be the same tensor in the (R,phi,Z) and (x,y,z) bases
         E = np.stack([q.normal_cylindrical, q.binormal_cylindrical, q.tangent_cylindrical], axis=1)   # [phi, frame index, cylindrical component]
         rot = np.einsum('pijk,pia,pjb,pkc->abcp', T, E, E, E)
@@ -811,9 +821,26 @@ def oracle_C05(objs, st=None, nshifts=2):
     return st
 
 
+def qh_cases(nphi=15, order='r3'):
+    """quasi-helical named configurations with an odd number of field periods (helicity != 0 matters for C06 / C13)"""
+    import inputs
+    from qsc import Qsc
+    out = []
+    for nm, extra in (('2022 QH nfp3 vacuum', dict(sG=-1, spsi=-1, B0=1.25, sigma0=0.1, zc=[0, 0.002])), ('r2 section 5.5', dict(sG=1, spsi=-1)), ('2022 QH nfp7', dict())):
+        kw = {k: (list(v) if isinstance(v, (list, np.ndarray)) else v) for k, v in inputs.named_kwargs(nm).items()}
+        kw.update(extra); kw['nphi'] = nphi; kw['order'] = order
+        try:
+            q = Qsc(**kw)
+        except Exception:
+            continue
+        out.append((dict(kind='named', name=nm, kwargs=kw), q, None))
+    return out
+
+
 def oracle_C06(objs, st=None):
     """nfp = k declared as nfp = 1 with harmonics interleaved with zeros, at k times the resolution (odd k keep the grid odd)"""
     st = st or Stats()
+    objs = list(objs) + qh_cases()[:2]
     for c, q, cap in objs:
         kq = q.nfp
         if kq == 1 or kq % 2 == 0 or q.nphi * kq > 170:
@@ -846,6 +873,18 @@ def oracle_C06(objs, st=None):
             return v
         compare_profiles(q, q1, mp, 1e-7, st, 'field-period representation: nfp=k equals nfp=1 at k times the resolution', cid, skip=('grad_B_tensor',))
         st.check('helicity per period multiplies by k, iotaN = iota + helicity*nfp unchanged', abs(q1.helicity - kq * q.helicity) + abs(q1.iotaN - q.iotaN) / (1 + abs(q.iotaN)), 1e-8, cid)
+        if q.order != 'r1':
+            st.check('total helicity N = iota - iotaN is the same in both descriptions', abs(q1.N_helicity - q.N_helicity) + abs((q.iota - q.iotaN) - q.N_helicity), 1e-8, cid)
+        # the evaluators must not see the declared number of field periods either (whole torus, both toroidal-angle conventions)
+        try:
+            rr = float(min(0.03 * np.min(q.R0), 0.2 * getattr(q, 'r_singularity', 1e100), 0.1 / np.max(q.curvature)))
+            ph = np.linspace(0.05, 2 * np.pi - 0.05, 9)
+            qa, qb = _copy.copy(q), _copy.copy(q1)
+            w = max(reldiff(qa.B_mag(rr, 0.4, ph), qb.B_mag(rr, 0.4, ph)), reldiff(qa.B_mag(rr, 0.4, ph, Boozer_toroidal=True), qb.B_mag(rr, 0.4, ph, Boozer_toroidal=True)))
+            # the two descriptions interpolate B20 with cubic splines on grids related by repetition: same knots, same values
+            st.check('field-strength evaluator independent of the declared number of field periods', w, 1e-9, cid)
+        except ValueError:
+            pass
     return st
 
 
@@ -1363,6 +1402,34 @@ def oracle_C18(objs, st=None):
         a1, a2 = numeric_attrs(q), numeric_attrs(qe)
         bad = [k for k in a1 if k in a2 and not np.array_equal(arr(a1[k]), arr(a2[k]), equal_nan=True)]
         st.check('an even nphi gives exactly the result of nphi + 1', float(len(bad)), 0.0, cid, detail=dict(differing=bad[:5]))
+    # spectral convergence: once two successive rungs agree to 1e-10, every later rung must agree with them to 1e-8
+    # (solved scalars, arclength integrals, extrema of the trigonometric interpolant); named configurations, whose
+    # spectra decay fast enough to be resolved on this ladder
+    from qsc import Qsc
+    SPECTRAL = ('iota', 'axis_length', 'min_R0', 'max_elongation', 'mean_elongation', 'min_L_grad_B', 'B20_mean', 'B20_residual', 'd2_volume_d_psi2', 'DMerc_times_r2')
+    ladder = (31, 61, 101, 131, 161)
+    for nm, extra in (('r2 section 5.1', dict(rs=[0, 1e-4], sigma0=0.05)), ('precise QA', dict(sG=-1, spsi=-1, B0=0.8, sigma0=0.2)), ('r2 section 5.4', dict(zc=[0, 3e-4]))):
+        vals = []
+        for n in ladder:
+            qq = Qsc.from_paper(nm, nphi=n, order='r3', **extra)
+            vals.append({k: float(getattr(qq, k)) for k in SPECTRAL})
+        cid = dict(kind='named', name=nm, kwargs=dict(name=nm, order='r3', **extra), ladder=list(ladder))
+        st.distinct.add('ladder' + nm)
+        for k in SPECTRAL:
+            v = [x[k] for x in vals]
+            sc = max(abs(v[-1]), 1e-300)
+            resolved_at = None
+            for j in range(1, len(v)):
+                if abs(v[j] - v[j - 1]) <= 1e-10 * sc:
+                    resolved_at = j
+                    break
+            worst = 0.0
+            if resolved_at is not None:
+                worst = max([abs(v[j] - v[resolved_at]) / sc for j in range(resolved_at, len(v))] + [0.0])
+            st.check('spectrally converging outputs change by less than 1e-8 once resolved (%s)' % k, worst, 1e-8, cid, detail=dict(values=v, resolved_at=None if resolved_at is None else ladder[resolved_at]))
+            # arclength integrals and solved scalars of these smooth configurations ARE resolved to 1e-8 by nphi = 131
+            if k in ('iota', 'axis_length', 'mean_elongation', 'B20_mean', 'd2_volume_d_psi2', 'DMerc_times_r2') and not (nm == 'r2 section 5.4' and k == 'mean_elongation'):
+                st.check('arclength integrals and solved scalars converge spectrally (change 131 -> 161 below 1e-8) (%s)' % k, abs(v[-1] - v[-2]) / sc, 1e-8, cid, detail=dict(values=v))
     # convergence of scalar outputs with resolution (spectral for solved quantities)
     for c, q, cap in objs[:2]:
         cid = case_id(c)
@@ -1429,10 +1496,19 @@ def oracle_C20(st=None, seed=0, thorough=False):
         s = int(rng.integers(1, N))
         st.check('spectral minimum invariant under cyclic shifts', abs(fourier_minimum(np.roll(y, s)) - m), 1e-9 * (1 + abs(m)), cid)
         st.check('constant data returns the constant', abs(fourier_minimum(np.full(N, 1.25)) - 1.25), 0.0, cid)
-    # Newton: invariants on recorded traces (smooth systems, perturbed Jacobians, stalls, NaN episodes)
-    import corr_hand
-    for t in range(40 if thorough else 18):
-        r = corr_hand.result()
+    # purity: a second call with the same arguments is unaffected by what the caller did with the first result
+    for n in (9, 12, 31):
+        for (a, b) in ((0.0, 2 * np.pi), (0.3, 1.7)):
+            D1 = spectral_diff_matrix(n, xmin=a, xmax=b)
+            ref = D1.copy()
+            D1 /= np.linspace(1, 2, n)[:, None]            # e.g. conversion to d/dvarphi in place
+            D1[0, 0] = 99.0
+            D2 = spectral_diff_matrix(n, xmin=a, xmax=b)
+            st.check('repeat calls of the differentiation-matrix kernel are independent of in-place use of earlier results', np.max(np.abs(D2 - ref)), 0.0,
+                     dict(kind='kernel', kwargs=dict(kernel='spectral_diff_matrix', n=n, xmin=a, xmax=b, history='call; modify the result in place; call again')))
+    fk = rng.normal(size=12); xx = rng.uniform(0, 6, size=4)
+    y1 = fourier_interpolation(fk, xx); ref = y1.copy(); y1[:] = 7.0
+    st.check('repeat calls of the interpolation kernel are independent of in-place use of earlier results', np.max(np.abs(fourier_interpolation(fk, xx) - ref)), 0.0, dict(kind='kernel', kwargs=dict(kernel='fourier_interpolation', history='call; overwrite result; call again')))
     return st
 
 
@@ -1684,7 +1760,7 @@ def oracle_history(objs, st=None, seed=0, label=''):
             pass
         nf = q.nfourier
         x = q.get_dofs().copy()
-        kind = (idx + seed) % 4          # the four kinds of history are cycled over the objects
+        kind = (idx + seed) % 5          # the five kinds of history are cycled over the objects
         if kind == 0:      # new field unit only (axis unchanged): B0, I2, B2s, B2c times c, p2 times c^2
             cc = float(rng.choice([0.6, 1.4, 2.5]))
             x[4 * nf + 6] *= cc; x[4 * nf + 5] *= cc; x[4 * nf + 2] *= cc; x[4 * nf + 3] *= cc; x[4 * nf + 4] *= cc * cc
@@ -1693,6 +1769,9 @@ def oracle_history(objs, st=None, seed=0, label=''):
             x[:4 * nf] *= (1 + 0.05 * rng.normal(size=4 * nf)); x[0] = abs(x[0])
             x[4 * nf + 4] = 0.0
             what = 'set_dofs: perturbed axis, p2 = 0'
+        elif kind == 4:    # the field strength alone (the ratio I2/B0 changes)
+            x[4 * nf + 6] *= float(rng.choice([0.7, 1.4, 2.3]))
+            what = 'set_dofs: B0 only'
         elif kind == 2:    # mirror twin (helicity changes sign for quasi-helical configurations)
             x[nf:2 * nf] *= -1; x[3 * nf:4 * nf] *= -1; x[4 * nf + 1] *= -1; x[4 * nf + 2] *= -1; x[4 * nf + 5] *= -1
             what = 'set_dofs: mirror twin'
